@@ -4,6 +4,7 @@ set -e
 cd "$(dirname "$0")/.."
 mkdir -p build evidence
 PYTHONHASHSEED=0 /venv/bin/python tools/gen_tables.py
+PYTHONHASHSEED=0 /venv/bin/python tools/gen_src.py
 cd coq
 coq_makefile -f _CoqProject -o Makefile > /dev/null
 timeout 3000 make -j16
